@@ -965,7 +965,112 @@ def check_dowhile(case, ctx: Ctx):
 
 
 # ------------------------------------------------------------------------------------------------------------
+# ------------------------------------------------------------------------------------------------------------
+# "no matter how many updates preceded it": long runs of updates by one process. The child lowers its open-file limit so
+# that a few hundred updates stand for the tens of thousands of a long experiment (a writer that leaks a descriptor, a
+# temporary file or a lock per update stops updating long before the experiment ends).
+@st.composite
+def long_case(draw):
+    return {"writer": draw(st.sampled_from(["status", "status", "conf"])),
+            "updates": draw(st.sampled_from([150, 300, 600])), "limit": draw(st.sampled_from([40, 64, 96])),
+            "every": draw(st.sampled_from([1, 7, 25]))}
+
+
+def _long_child(case, d):
+    """Runs in a forked child; returns None or (signature, message)."""
+    import resource
+    import experiment.model.data as D
+    import experiment.model.frontends.flowir as F
+    import experiment.model.conf
+    writer = case["writer"]
+    root = os.path.join(d, "inst", "output" if writer != "conf" else "conf")
+    os.makedirs(root)
+    if writer == "status":
+        path = os.path.join(root, "status.txt")
+        status = D.Status(path, {}, ["stage0", "stage1"])
+
+        def update(i):
+            status.setStageProgress((i % 100) / 100.0)
+            status.setErrorDescription("update %d" % i)
+            return status.update()
+
+        def read():
+            return D.Status.statusFromFile(path).data.get("error-description")
+        expect = lambda i: "update %d" % i
+    else:
+        path = os.path.join(root, "flowir_instance.yaml")
+
+        def update(i):
+            return experiment.model.conf.yaml_dump_atomically({"version": i, "components": []}, path)
+
+        def read():
+            import yaml as _yaml
+            with open(path) as f:
+                return _yaml.safe_load(f)["version"]
+        expect = lambda i: i
+    soft, hard = resource.getrlimit(resource.RLIMIT_NOFILE)
+    in_use = len(os.listdir("/proc/self/fd"))
+    resource.setrlimit(resource.RLIMIT_NOFILE, (in_use + case["limit"], hard))
+    for i in range(case["updates"]):
+        try:
+            update(i)
+        except Exception as e:          # noqa - an update that raises is a failed update
+            return ("update-fails-after-many-updates", "%s update %d of %d raised %r (open-file limit: %d above the "
+                    "descriptors in use before the first update)" % (writer, i + 1, case["updates"], e, case["limit"]))
+        if i % case["every"] == 0 or i == case["updates"] - 1:
+            try:
+                got = read()
+            except Exception as e:      # noqa
+                return ("unreadable-after-many-updates", "%s after update %d: %r" % (writer, i + 1, e))
+            if got != expect(i):
+                return ("readback-stale-after-many-updates", "%s after update %d of %d: read back %r, last written %r "
+                        "(open-file limit: %d above the descriptors in use before the first update)" % (
+                            writer, i + 1, case["updates"], got, expect(i), case["limit"]))
+    return None
+
+
+def check_long(case, ctx: Ctx):
+    import pickle
+    d = ctx.mkdtemp()
+    r, w = os.pipe()
+    pid = os.fork()
+    if pid == 0:
+        code = 0
+        try:
+            os.close(r)
+            res = _long_child(case, d)
+            os.write(w, pickle.dumps(res))
+        except BaseException as e:       # noqa
+            try:
+                os.write(w, pickle.dumps(("harness", repr(e))))
+            except Exception:
+                pass
+            code = 3
+        finally:
+            os._exit(code)
+    os.close(w)
+    buf = b""
+    while True:
+        chunk = os.read(r, 65536)
+        if not chunk:
+            break
+        buf += chunk
+    os.close(r)
+    os.waitpid(pid, 0)
+    shutil.rmtree(d, ignore_errors=True)
+    res = pickle.loads(buf) if buf else ("harness", "child wrote nothing")
+    if res is None:
+        ctx.rec.label("long:%s:updates=%d" % (case["writer"], case["updates"]))
+        ctx.rec.nt(["long", case], {"writer": case["writer"], "updates": case["updates"],
+                                    "open_file_headroom": case["limit"]}, group="long")
+        return
+    if res[0] == "harness":
+        raise RuntimeError("long-history child failed: %s" % res[1])
+    raise Violation(res[0], res[1])
+
+
 SUBS = {
+    "long": check_long,
     "status": check_status, "status_rt": check_status,
     "output": check_output, "output_rt": check_output,
     "details": check_details, "details_rt": check_details,
@@ -991,6 +1096,21 @@ def shard(ctx: Ctx):
     k = ctx.shard % len(plan)
     for sub, strategy, count, batch in plan[k:] + plan[:k]:
         explore(ctx, sub, strategy, SUBS[sub], count, batch=batch)
+    # long histories: a small finite domain, swept deterministically (every shard takes the combinations of its residue
+    # class, starting at an offset that depends on the seed; quick: 2 per shard, thorough: all 54)
+    combos = [{"writer": w, "updates": u, "limit": l, "every": e} for w in ("status", "conf") for u in (150, 300, 600)
+              for l in (40, 64, 96) for e in (1, 7, 25)]
+    mine = [c for i, c in enumerate(combos) if (i + ctx.seed) % ctx.nshards == ctx.shard]
+    for case in ([mine[0], mine[-1]] if ctx.tier == "quick" and len(mine) > 1 else mine):
+        if ctx.stop:
+            break
+        ctx.rec.evaluations += 1
+        try:
+            check_long(case, ctx)
+        except Violation as v:
+            v.case, v.sub = case, "long"
+            ctx.rec.violations.append(v.to_dict())
+            ctx.stop = True
 
 
 def replay(sub, case, ctx: Ctx):
